@@ -37,7 +37,10 @@ impl Axecutor {
                 s
             }; (set: FLAGS_UNAFFECTED; clear: 0)]
         } else {
-            Ok(())
+            // The source operand is read (and can fault) even when the move does not happen
+            calculate_r_rm![u16; self; i; |d, _| {
+                d
+            }; (set: FLAGS_UNAFFECTED; clear: 0)]
         }
     }
 
@@ -71,7 +74,10 @@ impl Axecutor {
                 s
             }; (set: FLAGS_UNAFFECTED; clear: 0)]
         } else {
-            Ok(())
+            // The source operand is read (and can fault) even when the move does not happen
+            calculate_r_rm![u64; self; i; |d, _| {
+                d
+            }; (set: FLAGS_UNAFFECTED; clear: 0)]
         }
     }
 }
